@@ -142,6 +142,9 @@ func (c *Ctx) finishNoEvidence() int {
 	sort.SliceStable(c.Obs, func(i, j int) bool { return c.Obs[i].Key() < c.Obs[j].Key() })
 	for _, o := range c.Obs {
 		if o.Status == Discharged {
+			if pfx := os.Getenv("GENQL_LIST"); pfx != "" && strings.HasPrefix(o.Rule, pfx) {
+				fmt.Printf("discharged %s @ %s  %s  %s\n", o.Rule, o.Construct, o.Pos, o.Detail) // debug listing
+			}
 			continue
 		}
 		known := false
